@@ -5,7 +5,7 @@ from . import mir, sym, refs, guards, diag, c03
 from .common import Finding
 
 LAYOUT_FIELDS = {"BlockInfo.uid", "BlockInfo.start_offset", "BlockInfo.end_offset", "Comment.uid"}
-ALLOWED_MUTATORS = re.compile(r"(itemlist::ItemList::sort_by|std::slice::sort_by|core::slice::sort_by|std::vec::Vec::clear|.*::get_layout_mut|.*::iter_mut|.*IntoIterator>?::into_iter|.*::next|.*::for_each|.*::as_mut|.*::deref_mut|.*::get_mut|.*::index_mut|.*::last_mut|.*::first_mut|.*::by_ref|.*::zip|.*::enumerate)$")
+ALLOWED_MUTATORS = re.compile(r"(itemlist::ItemList::sort_by|std::slice::sort_by|core::slice::sort_by|std::vec::Vec::clear|.*::get_layout_mut|.*::iter_mut|.*IntoIterator>?::into_iter|.*::into_iter|.*::next|.*::for_each|.*::as_mut|.*::deref_mut|.*::get_mut|.*::index_mut|.*::last_mut|.*::first_mut|.*::by_ref|.*::zip|.*::enumerate)$")
 
 
 def layout_write(b, S, ev):
@@ -70,7 +70,7 @@ def frame(chk, rule, prog, entry):
     chk.rule(rule, "writes and mutating calls in sort.rs reachable from %s confined to layout fields and reordering" % entry, n, floor=10)
 
 
-def counter_chain(chk, rule, prog, fids):
+def counter_chain(chk, rule, prog, fids, floor=3):
     """after a uid is written from a counter variable, the counter is incremented before the next write from it / before it is returned"""
     n = 0
     for fid in sorted(fids):
@@ -96,12 +96,8 @@ def counter_chain(chk, rule, prog, fids):
                     src = mir.op_place(s["rv"]["a"])
                     if src is not None and not src["p"]:
                         v = src["l"]
-                        # follow one copy
-                        for s2 in blk["s"]:
-                            if s2["k"] == "assign" and not s2["p"]["p"] and s2["p"]["l"] == v and s2["rv"]["r"] == "use":
-                                p2 = mir.op_place(s2["rv"]["a"])
-                                if p2 is not None and not p2["p"]:
-                                    v = p2["l"]
+                        # follow copies of single-definition temporaries (also across the call that fetches the layout record)
+                        v = guards.resolve_copy(b, v)
                         writes.append((bi, v, s["ln"]))
         returned = set()
         for bi, si, s in b.stmts():
@@ -135,4 +131,4 @@ def counter_chain(chk, rule, prog, fids):
             if path is not None and not (wb in incs[v] and False):
                 # the write block itself may contain the increment after the write: accept if the block is an increment block reached after the write
                 chk.add(Finding(rule, "%s::%s" % (rule, mir.strip_generics(fid)), "%s assigns a uid from its counter and can reach the next assignment (or return the counter) without incrementing it: two elements share a uid / the next kind starts at an already used uid, so kinds interleave in the written file" % fid, b.where(ln)))
-    chk.rule(rule, "uid assignments from a running counter that is incremented before its next use / before being returned", n, floor=3)
+    chk.rule(rule, "uid assignments from a running counter that is incremented before its next use / before being returned", n, floor=floor)
